@@ -9,6 +9,9 @@ cd $WT || exit 2
 git checkout -q -- . ; rm -f oxidize-pdf-core/tests/seed_demo.rs
 {
 echo "== seed $P/$K $(date)"
+# the pristine tree's own failure list (font-fixture tests whose fixtures are emptied in this sandbox, timing heuristics) is the same in
+# every worktree: computed once (full suite on pristine worktrees and on /repo) and reused
+if [ -f /tmp/seed/baseline_global.txt ] && [ ! -f /tmp/seed/${P}_out/baseline_nextest_failed.txt ]; then cp /tmp/seed/baseline_global.txt /tmp/seed/${P}_out/baseline_nextest_failed.txt; fi
 if [ ! -f /tmp/seed/${P}_out/baseline_nextest_failed.txt ]; then
   echo "-- baseline full suite on pristine worktree"
   cargo nextest run --workspace --no-fail-fast --offline --test-threads 8 > /tmp/seed/${P}_out/baseline_nextest.log 2>&1
